@@ -26,6 +26,10 @@ def corpus():
         case(0, 0, 5, 0, 5, 5, 0),
         case(0, 0, 4, 0, 5, 5, 0),
         case(1, 1, 100, 100, 3, 0, 0),
+        case(0, 0, 0, 7, 93, 7, 0),     # exactly 7 %: passes (a float percentage says 7.000000000000001)
+        case(0, 0, 0, 28, 18, 7, 0),
+        case(0, 1, 2, 0, 5, 3, 2),      # ignore-dropped must not mask the failure tolerance
+        case(0, 1, 0, 0, 5, 1, 2),
     ]
 
 
@@ -42,6 +46,15 @@ def generate(rng, tier):
         succ = iters - dropped - failed
         mf = rng.choice([0, 0, 0, failed, failed + 1, max(0, failed - 1)])
         out.append(case(rng.random() < 0.05, rng.random() < 0.5, mf, rate, succ, failed, dropped))
+    # shares exactly equal to the tolerance (and one failure more): failed*100 == rate*iters
+    from math import gcd
+    for _ in range(n // 3):
+        rate = rng.randint(1, 100)
+        step = 100 // gcd(rate, 100)
+        iters = step * rng.randint(1, max(1, 2000 // step))
+        failed = min(iters, rate * iters // 100 + rng.choice([0, 0, 0, 1]))
+        dropped = rng.choice([0, 0, rng.randint(0, iters - failed)]) if iters > failed else 0
+        out.append(case(0, 1, 0, rate, iters - failed - dropped, failed, dropped))
     for _ in range(n // 3):
         mf = rng.choice([0, 1, 2, 5, 10, 100])
         failed = max(0, mf + rng.choice([-1, 0, 1, 2]))
